@@ -511,6 +511,23 @@ fn public_boundary_ops(rng: &mut Rng, lgk: u8, rf: u8, seed: u64) -> Vec<Op> {
 }
 
 /// sampling sketch whose updates are all screened out, then compact / bounds (C01, C04)
+/// trim at exactly k retained entries (nothing to do), twice, and right after the automatic rebuild
+fn exact_k_trim_ops(rng: &mut Rng, lgk: u8) -> Vec<Op> {
+    let k = 1usize << lgk;
+    let mut ops: Vec<Op> = (0..k).map(|_| Op::Item(rng.next())).collect();
+    ops.push(Op::Trim);
+    ops.push(Op::Compact(true));
+    ops.push(Op::Trim);
+    // on to the first rebuild (15/8 k entries), then trim twice
+    for _ in 0..k {
+        ops.push(Op::Item(rng.next()));
+    }
+    ops.push(Op::Trim);
+    ops.push(Op::Trim);
+    ops.push(Op::Compact(true));
+    ops
+}
+
 fn screened_ops(rng: &mut Rng, p: f32) -> Vec<Op> {
     let th0 = th0_of(p);
     let mut ops = vec![Op::Compact(true)];
@@ -621,6 +638,12 @@ pub fn record(args: &Args) {
             let rf = rng.below(4) as u8;
             let ops = public_boundary_ops(&mut rng, lgk, rf, 9001);
             run(&mut out, "theta-public-boundary", lgk, rf, 1.0, 9001, &ops);
+        }
+        for &lgk in &[5u8, 6, 7] {
+            for rf in [0u8, 3] {
+                let ops = exact_k_trim_ops(&mut rng, lgk);
+                run(&mut out, "theta-trim-at-k", lgk, rf, 1.0, 9001, &ops);
+            }
         }
         // probabilities so small that p * 2^63 truncates to 0 (theta starts at the smallest positive value)
         for &p in &[1e-20f32, 1e-30] {
